@@ -114,7 +114,7 @@ end statement
 
 /-- **Level 1: `proofUndoAddOld` is the inverse of the addition step** when no empty root is
 destroyed and the forest before the additions is not empty (see `Proofs/ProofUndoAdd.lean`) -/
-theorem proofUndoAdd_canonical {F : Forest H} {adds : List H} (cr : CR H)
+theorem proofUndoAdd_canonical {F : Forest H} {adds : List H} (nz : NZ H)
     (hN : F.numLeaves + adds.length ≤ 2 ^ 63)
     (hndG : (F.addMany adds).liveLeaves.Nodup)
     (hleaf : ∀ x ∈ (F.addMany adds).liveLeaves, x ≠ (zero : H) ∧ ∀ a b : H, x ≠ ph a b)
@@ -126,7 +126,7 @@ theorem proofUndoAdd_canonical {F : Forest H} {adds : List H} (cr : CR H)
       proofUndoAddOld ⟨tgG.map (E (F.addMany adds).rows), hsG⟩ (BitVec.ofNat 64 adds.length)
           (BitVec.ofNat 64 (F.addMany adds).numLeaves) C' [] =
         .ok (⟨tgK.map (E F.rows), hsK⟩, K) :=
-  ProofUndoAdd.proofUndoAdd_canonical cr hN hndG hleaf hL hn0 hC' hcG
+  ProofUndoAdd.proofUndoAdd_canonical nz hN hndG hleaf hL hn0 hC' hcG
 
 /-- **Level 2: `proofUndoDel` is the inverse of the deletion movement** (see
 `Proofs/ProofUndoDel.lean`) -/
@@ -145,7 +145,7 @@ theorem proofUndoDel_canonical {F : Forest H} (hn : F.numLeaves ≤ 2 ^ 63)
 /-- **`Proof.Undo` is canonical outside the two defect classes** (specification form: the
 hypothesis on the destroyed roots is `DestroySpec … []`, i.e. no all-zero root of the forest after
 the deletions is merged over by the additions) -/
-theorem proofUndo_canonical_partial (cr : CR H) (F : Forest H) (C' D adds : List H)
+theorem proofUndo_canonical_partial (nz : NZ H) (F : Forest H) (C' D adds : List H)
     (tgG tgD : List Pos) (hsG hsD : List H)
     (hN : F.numLeaves + adds.length ≤ 2 ^ 63) (hnd : F.liveLeaves.Nodup)
     (hleaf : ∀ x ∈ F.liveLeaves, x ≠ (zero : H) ∧ ∀ a b : H, x ≠ ph a b)
@@ -165,10 +165,10 @@ theorem proofUndo_canonical_partial (cr : CR H) (F : Forest H) (C' D adds : List
   have hn' : (F.delLeaves D).numLeaves = F.numLeaves := delLeaves_numLeaves F D
   have hrows : (F.delLeaves D).rows = F.rows := by unfold Forest.rows; rw [hn']
   obtain ⟨K1, tgK1, hsK1, hperm1, hcK1, hsorted1, hua⟩ :=
-    ProofUndoAdd.proofUndoAdd_canonical (F := F.delLeaves D) cr (by rw [hn']; exact hN) g1 g2 hL
+    ProofUndoAdd.proofUndoAdd_canonical (F := F.delLeaves D) nz (by rw [hn']; exact hN) g1 g2 hL
       (by rw [hn']; exact hn0) hC' hcG
   obtain ⟨K, tg, hs, hperm2, hcK, hsorted, hud⟩ :=
-    ProofUndoDel.proofUndoDel_canonical hn cr.nonzero (fun l hl => (hleaf l hl).1) hnd hD hcD hcK1
+    ProofUndoDel.proofUndoDel_canonical hn nz.nonzero (fun l hl => (hleaf l hl).1) hnd hD hcD hcK1
       hsorted1
   refine ⟨K, tg, hs, hperm2.trans hperm1, hcK, hsorted, ?_⟩
   have hnumG : (F.modify D adds).numLeaves = F.numLeaves + adds.length := by
@@ -188,7 +188,7 @@ theorem proofUndo_canonical_partial (cr : CR H) (F : Forest H) (C' D adds : List
 
 /-- the rows of the destroyed roots from the update data of `Stump.Update`: an empty `ToDestroy`
 means that no all-zero root is merged over -/
-theorem destroySpec_of_toDestroy_nil (cr : CR H) {G : Forest H} {adds : List H} {upd : HP H}
+theorem destroySpec_of_toDestroy_nil (nz : NZ H) {G : Forest H} {adds : List H} {upd : HP H}
     (hN : G.numLeaves + adds.length ≤ 2 ^ 63) (hndG : (G.addMany adds).liveLeaves.Nodup)
     (hleaf : ∀ x ∈ (G.addMany adds).liveLeaves, x ≠ (zero : H) ∧ ∀ a b : H, x ≠ ph a b)
     (hspec : AddDataSpec G adds upd []) : DestroySpec G.slots adds.length [] := by
@@ -198,7 +198,7 @@ theorem destroySpec_of_toDestroy_nil (cr : CR H) {G : Forest H} {adds : List H} 
     | nil => rfl
     | cons a t => simp at htd
   subst hL
-  exact ProofUpdateAdd.destroySpec_of cr hN hndG hleaf hLasc hLmem
+  exact ProofUpdateAdd.destroySpec_of nz hN hndG hleaf hLasc hLmem
 
 /-- **C08 for one block, outside the two defect classes**, fed by the update data of the
 verifier-state update -/
@@ -215,8 +215,8 @@ theorem C08_partial : C08_partial_statement H := by
   rw [htd] at h4 ⊢
   obtain ⟨g1, g2⟩ := addMany_delLeaves_ok (dels := D) hnd hleaf hadds haddsnd hnew
   have hn' : (F.delLeaves D).numLeaves = F.numLeaves := delLeaves_numLeaves F D
-  have hL := destroySpec_of_toDestroy_nil cr (by rw [hn']; exact hN) g1 g2 h4
-  exact proofUndo_canonical_partial cr F C' D adds tgG tgD hsG hsD hN hnd hleaf hadds haddsnd hnew hD
+  have hL := destroySpec_of_toDestroy_nil cr.toNZ (by rw [hn']; exact hN) g1 g2 h4
+  exact proofUndo_canonical_partial cr.toNZ F C' D adds tgG tgD hsG hsD hN hnd hleaf hadds haddsnd hnew hD
     hcD hC' hcG hL hn0
 
 /-! ### the clauses of the property text -/
@@ -264,7 +264,7 @@ theorem undone_exactly {F : Forest H} {C' D adds K : List H}
 
 /-- "it is a canonical, verifying proof against the pre-block verifier state": the result of the
 undo is accepted by `Verify` against the roots of the accumulator before the block -/
-theorem undone_proof_verifies (cr : CR H) {F : Forest H} (hn : F.numLeaves ≤ 2 ^ 63)
+theorem undone_proof_verifies (nz : NZ H) {F : Forest H} (hn : F.numLeaves ≤ 2 ^ 63)
     (hlive : ∀ l ∈ F.liveLeaves, l ≠ (zero : H)) {K : List H} {tg : List Pos} {hs : List H}
     (hcK : F.canon K = some (tg, hs)) (hsorted : tg.Pairwise Sorted.PLt) :
     verify (BitVec.ofNat 64 F.numLeaves) F.roots K (tg.map (E F.rows)) hs =
@@ -273,7 +273,7 @@ theorem undone_proof_verifies (cr : CR H) {F : Forest H} (hn : F.numLeaves ≤ 2
     have h1 := hsorted
     rw [ProofUpdateRemove.canon_targets_eq hcK, List.pairwise_map] at h1
     exact h1.imp (fun {a b} hab e => by rw [e] at hab; exact PLt.irrefl _ hab)
-  exact C02.honest_proof_verifies_CR cr hn hlive hK hcK
+  exact C02.honest_proof_verifies_CR nz hn hlive hK hcK
 
 /-! ### update, then undo -/
 
@@ -382,6 +382,64 @@ theorem client_from_nodup (cr : CR H) (nonZero : H) (hnz : nonZero ≠ (zero : H
       exact this.imp (fun {x y} hxy e => by rw [e] at hxy; exact PLt.irrefl _ hxy)
     obtain ⟨C'', tg'', hs'', g1, g2, g3, g4⟩ := ih (F.modify d a) C' (C07.expected Cexp d a r) tg' hs'
       inv.step hC' h3 (h2.trans (List.Perm.append_right _ (hp.filter _)))
+    refine ⟨C'', tg'', hs'', ?_, g2, g3, g4⟩
+    rw [C07.clientRun]
+    dsimp only
+    rw [hcD]
+    dsimp only
+    rw [h1]
+    dsimp only
+    rw [h5]
+    exact g1
+
+/-- `client_from_nodup` without collision-freeness: `NZ H`, and every forest reached along the
+history has pairwise distinct non-zero node hashes (`DistinctRun`, `Proofs/NodesUnique.lean`) -/
+theorem client_from_nodup_nd (nz : NZ H) (nonZero : H) (hnz : nonZero ≠ (zero : H)) :
+    ∀ (hist : List (C07.CBlock H)) (F : Forest H) (C Cexp : List H) (tg : List Pos) (hs : List H),
+      C07.Inv F hist → DistinctRun F (hist.map C07.toBlock) → C.Nodup → F.canon C = some (tg, hs) → C.Perm Cexp →
+      ∃ C' tg' hs',
+        C07.clientRun nonZero F (⟨tg.map (E F.rows), hs⟩, C) hist =
+          some (⟨tg'.map (E (run F (hist.map C07.toBlock)).rows), hs'⟩, C') ∧
+        (run F (hist.map C07.toBlock)).canon C' = some (tg', hs') ∧
+        C'.Perm (C07.expectedRun Cexp hist) ∧ C'.Nodup := by
+  intro hist
+  induction hist with
+  | nil =>
+    intro F C Cexp tg hs _ _ hC hc hp
+    exact ⟨C, tg, hs, rfl, hc, hp, hC⟩
+  | cons b rest ih =>
+    obtain ⟨d, a, r⟩ := b
+    intro F C Cexp tg hs inv hdr hC hc hp
+    have hsm := inv.ok.small
+    simp only [List.map_cons, C07.toBlock, allAdds_cons, List.length_append] at hsm
+    have hN : F.numLeaves + a.length ≤ 2 ^ 63 := by omega
+    have hand := inv.ok.adds_nodup
+    simp only [List.map_cons, C07.toBlock, allAdds_cons] at hand
+    have hleaf : ∀ x ∈ F.liveLeaves, x ≠ (zero : H) ∧ ∀ p q : H, x ≠ ph p q :=
+      fun x hx => ⟨inv.ok.live_nonzero x hx, inv.leafF x hx⟩
+    have hadds : ∀ x ∈ a, x ≠ (zero : H) ∧ ∀ p q : H, x ≠ ph p q := by
+      intro x hx
+      have hm : x ∈ allAdds (((d, a, r) :: rest).map C07.toBlock) := by
+        simp only [List.map_cons, C07.toBlock, allAdds_cons]
+        exact List.mem_append_left _ hx
+      exact ⟨inv.ok.adds_nonzero x hm, inv.leafA x hm⟩
+    have hnew : ∀ x ∈ a, x ∈ F.liveLeaves → x ∈ d := by
+      intro x hx hl
+      exact absurd hl (inv.ok.adds_new x (by
+        simp only [List.map_cons, C07.toBlock, allAdds_cons]
+        exact List.mem_append_left _ hx))
+    have hD : d.Nodup := inv.dnd (d, a) (by simp [C07.toBlock])
+    obtain ⟨tgD, hsD, hcD⟩ := C02.canon_defined (L := d) (by omega : F.numLeaves ≤ 2 ^ 63) inv.live.1
+    obtain ⟨ud, C', tg', hs', h1, h2, h3, h4, h5⟩ := C07.proofUpdate_with_stump_nd nz nonZero hnz F C d a
+      tg tgD hs hsD [] r hN inv.ok.live_nodup hleaf hadds (List.nodup_append.1 hand).1 hnew hD hcD hC
+      hc (inv.rems (d, a, r) (by simp)) hdr.1
+    rw [List.append_nil] at h1
+    have hC' : C'.Nodup := by
+      have := h4
+      rw [ProofUpdateRemove.canon_targets_eq h3, List.pairwise_map] at this
+      exact this.imp (fun {x y} hxy e => by rw [e] at hxy; exact PLt.irrefl _ hxy)
+    obtain ⟨C'', tg'', hs'', g1, g2, g3, g4⟩ := ih (F.modify d a) C' (C07.expected Cexp d a r) tg' hs'
+      inv.step hdr.2 hC' h3 (h2.trans (List.Perm.append_right _ (hp.filter _)))
     refine ⟨C'', tg'', hs'', ?_, g2, g3, g4⟩
     rw [C07.clientRun]
     dsimp only
@@ -715,7 +773,7 @@ example : ∀ x, x ∈ [T.leaf 1, T.leaf 3] ↔
 example : verify (BitVec.ofNat 64 Fv.numLeaves) Fv.roots [T.leaf 1, .leaf 3]
     ([((0, 0) : Pos), (0, 2)].map (E Fv.rows)) [T.leaf 2, .leaf 4] =
     .ok (touchedIdx Fv.numLeaves [(0, 0), (0, 2)]) :=
-  undone_proof_verifies cr (by decide) (fun l hl => (Fv_live l hl).1) (by decide +kernel)
+  undone_proof_verifies cr.toNZ (by decide) (fun l hl => (Fv_live l hl).1) (by decide +kernel)
     (by simp [Sorted.PLt])
 
 /-- level 1, `proofUndoAdd_canonical` applies to the forest after the deletion -/
@@ -729,7 +787,7 @@ example : ∃ K tgK hsK, K.Perm (expectedUndo [T.leaf 6, .leaf 1, .leaf 3] [T.le
       .ok (⟨tgK.map (E (Fv.delLeaves [T.leaf 2]).rows), hsK⟩, K) := by
   obtain ⟨g1, g2⟩ := addMany_delLeaves_ok (dels := [T.leaf 2]) (by decide : Fv.liveLeaves.Nodup)
     Fv_live adds56 (by decide) (fun x hx hx' => absurd hx' (adds56_new x hx))
-  refine proofUndoAdd_canonical cr (by decide) g1 g2 ?_ (by decide) (by decide) canonGv
+  refine proofUndoAdd_canonical cr.toNZ (by decide) g1 g2 ?_ (by decide) (by decide) canonGv
   refine ⟨trivial, ?_⟩
   intro h
   match h with
